@@ -57,6 +57,18 @@ macro_rules! match_packet {
     }};
 }
 
+/// Decodes the [`VarInt`] at the start of the buffer (if it is complete) and its encoded length.
+fn peek_varint(buffer: &[u8]) -> Option<(VarInt, usize)> {
+    let mut ans = 0;
+    for (i, byte) in buffer.iter().take(5).enumerate() {
+        ans |= (i32::from(byte & 0b0111_1111)) << (7 * i);
+        if byte & 0b1000_0000 == 0 || i == 4 {
+            return Some((ans, i + 1));
+        }
+    }
+    None
+}
+
 /// The max packet length in bytes. Larger packets are rejected.
 pub const DEFAULT_MAX_PACKET_LENGTH: VarInt = 10_000;
 
@@ -70,6 +82,10 @@ pub const KEEP_ALIVE_INTERVAL: u64 = 16;
 pub struct Connection<S, Stat, Disc, Filt, Stra, Auth, Loca> {
     stream: CipherStream<S, Aes128Cfb8Enc, Aes128Cfb8Dec>,
     buffer: Vec<u8>,
+    // received bytes that do not form a complete packet yet (keeps receiving cancel safe)
+    read_buffer: Vec<u8>,
+    // encoded packets that are not fully written yet (keeps sending cancel safe)
+    write_buffer: Vec<u8>,
 
     // adapters
     status_adapter: Arc<Stat>,
@@ -119,6 +135,8 @@ where
         Self {
             stream: CipherStream::from_stream(stream),
             buffer: Vec::with_capacity(INITIAL_BUFFER_SIZE),
+            read_buffer: Vec::with_capacity(INITIAL_BUFFER_SIZE),
+            write_buffer: Vec::with_capacity(INITIAL_BUFFER_SIZE),
             // adapters
             status_adapter,
             discovery_adapter,
@@ -163,8 +181,34 @@ where
         &mut self,
         keep_alive: bool,
     ) -> Result<(VarInt, Cursor<Vec<u8>>), Error> {
-        // wait for the next packet, send keep-alive packets as necessary
-        let length = loop {
+        // finish sending a packet whose write was interrupted (e.g., by a `tokio::select!`)
+        self.flush_packets().await?;
+
+        // wait for the next packet, send keep-alive packets as necessary. Received bytes are kept in
+        // the read buffer until a packet is complete, such that this future can be dropped at any
+        // await point (e.g., by a `tokio::select!`) without losing a partially received packet.
+        let (length, prefix) = loop {
+            // check whether the read buffer already holds the next packet, else get the missing bytes
+            let missing = match peek_varint(&self.read_buffer) {
+                None => 1,
+                Some((length, prefix)) => {
+                    // check the length of the packet before any of its content is received
+                    if length <= 0 || length > self.max_packet_length {
+                        debug!(
+                            length,
+                            "packet length should be between 0 and {}", self.max_packet_length
+                        );
+                        return Err(passage_packets::Error::IllegalPacketLength.into());
+                    }
+                    let total = prefix + length as usize;
+                    if self.read_buffer.len() >= total {
+                        break (length, prefix);
+                    }
+                    total - self.read_buffer.len()
+                }
+            };
+
+            let mut missing_bytes = (&mut self.stream).take(missing as u64);
             tokio::select! {
                 // use biased selection such that branches are checked in order
                 biased;
@@ -187,46 +231,29 @@ where
                     let packet = conf_out::KeepAlivePacket { id };
                     self.send_packet(packet).await?;
                 },
-                // await the next packet in, reading the packet size (expect fast execution)
-                maybe_length = self.stream.read_varint().instrument(tracing::info_span!("read_packet_length", otel.kind = "server")) => {
-                    break maybe_length?;
+                // await the missing bytes of the next packet (reading is cancel safe)
+                read = missing_bytes.read_buf(&mut self.read_buffer).instrument(tracing::info_span!("read_packet_bytes", otel.kind = "server")) => {
+                    if read? == 0 {
+                        return Err(std::io::Error::from(std::io::ErrorKind::UnexpectedEof).into());
+                    }
                 },
             }
         };
-
-        // check the length of the packet for any following content
-        if length <= 0 || length > self.max_packet_length {
-            debug!(
-                length,
-                "packet length should be between 0 and {}", self.max_packet_length
-            );
-            return Err(passage_packets::Error::IllegalPacketLength.into());
-        }
 
         // track metrics
         let packet_size = u64::try_from(length).expect("length is always positive");
         metrics::packet_size::record_serverbound(packet_size);
         tracing::Span::current().record("packet_length", packet_size);
 
-        // extract the encoded packet id
-        let id = self
-            .stream
-            .read_varint()
-            .instrument(tracing::info_span!("read_packet_id", otel.kind = "server"))
-            .await?;
-        tracing::Span::current().record("packet_id", id);
+        // split the packet from the read buffer (the packet id is part of the packet length)
+        let remaining = self.read_buffer.split_off(prefix + length as usize);
+        let packet = std::mem::replace(&mut self.read_buffer, remaining);
+        let mut buf = Cursor::new(packet);
+        buf.set_position(prefix as u64);
 
-        // split a separate reader from the stream and read packet bytes (advancing stream)
-        let mut buffer = vec![];
-        (&mut self.stream)
-            .take(length as u64 - 1)
-            .read_to_end(&mut buffer)
-            .instrument(tracing::info_span!(
-                "read_packet_bytes",
-                otel.kind = "server"
-            ))
-            .await?;
-        let buf = Cursor::new(buffer);
+        // extract the encoded packet id
+        let id = buf.read_varint().await?;
+        tracing::Span::current().record("packet_id", id);
 
         Ok((id, buf))
     }
@@ -248,9 +275,10 @@ where
         final_buffer.write_varint(packet_len as VarInt).await?;
         final_buffer.extend_from_slice(&self.buffer);
 
-        // send the final buffer into the stream
-        self.stream
-            .write_all(&final_buffer)
+        // send the final buffer into the stream. The bytes are kept in the write buffer until they
+        // are written, such that a dropped future never leaves a partially written packet behind.
+        self.write_buffer.extend_from_slice(&final_buffer);
+        self.flush_packets()
             .instrument(tracing::info_span!("write_packet", otel.kind = "server"))
             .await?;
 
@@ -258,6 +286,18 @@ where
         let packet_size = u64::try_from(final_buffer.len()).expect("usize always fits into u64");
         metrics::packet_size::record_clientbound(packet_size);
 
+        Ok(())
+    }
+
+    /** Writes all pending bytes of the write buffer to the client (cancel safe). */
+    async fn flush_packets(&mut self) -> Result<(), Error> {
+        while !self.write_buffer.is_empty() {
+            let written = self.stream.write(&self.write_buffer).await?;
+            if written == 0 {
+                return Err(std::io::Error::from(std::io::ErrorKind::WriteZero).into());
+            }
+            self.write_buffer.drain(..written);
+        }
         Ok(())
     }
 
